@@ -25,7 +25,9 @@ package ice
 // (known finding CF-34); a repair would trim the message after the integrity check.
 //@ ghost field stun.Message.gAuthOnly bool
 //@ func (*Agent).handleInboundRequest
-//@   props C02 C05
+//@   props C02 C05 C04
+//@   requires C04 alive: a.connectionState != ConnectionStateFailed
+//@   requires C04 selector-belongs-to-this-agent: selAgent(a.selector) == a
 //@   requires a != nil && msg != nil
 //@   site call AssertUsername#1 assert username-message: arg0 == msg
 //@   site call AssertUsername#1 assert username-is-local-colon-remote: arg1 == a.localUfrag + ":" + a.remoteUfrag
@@ -52,7 +54,9 @@ package ice
 //@   ensures accepted-has-candidate: ok ==> remoteCand != nil
 
 //@ func (*Agent).handleInboundResponse
-//@   props C02
+//@   props C02 C04
+//@   requires C04 alive: a.connectionState != ConnectionStateFailed
+//@   requires C04 selector-belongs-to-this-agent: selAgent(a.selector) == a
 //@   requires a != nil && msg != nil
 //@   site call Check#1 assert integrity-message: arg1 == msg
 //@   site call Check#1 assert integrity-key-is-remote-pwd: elems(arg0) == strBytes(a.remotePwd) && arg0.off == 0 && len(arg0) == len(a.remotePwd)
@@ -70,6 +74,7 @@ package ice
 //@ func (*Agent).handleInbound
 //@   props C02 C04
 //@   requires a != nil
+//@   requires C04 selector-belongs-to-this-agent: selAgent(a.selector) == a
 //@   site call handleInboundResponse#1 assert C04 a-failed-agent-is-deaf-until-it-is-restarted: a.connectionState != ConnectionStateFailed
 //@   site call handleInboundRequest#1 assert C04 a-failed-agent-is-deaf-until-it-is-restarted: a.connectionState != ConnectionStateFailed
 //@   ensures C04 a-failed-agent-ignores-stun-traffic: old(a.connectionState) == ConnectionStateFailed ==> unchangedExcept()
